@@ -594,9 +594,29 @@ def _comp_facts(ctx, f, e, depth=0):
             and len(e.args) == 1:
         return _comp_facts(ctx, f, e.args[0], depth + 1)
     if not isinstance(e, (ast.ListComp, ast.GeneratorExp, ast.SetComp)) or \
-            len(e.generators) != 1 or not isinstance(e.generators[0].target, ast.Name):
+            len(e.generators) != 1:
         return None
     g = e.generators[0]
+    if isinstance(g.target, ast.Tuple) and g.target.elts and \
+            all(isinstance(x, ast.Name) for x in g.target.elts):
+        # `for lo, hi in ranges`: lo is item[0], hi is item[1]
+        import re as _re
+        comps = {x.id: "$[%d]" % k for k, x in enumerate(g.target.elts)}
+
+        def sub_t(x):
+            x = x.replace(" ", "")
+            for nm, rep in comps.items():
+                x = _re.sub(r"(?<![\w.])%s\b" % _re.escape(nm), lambda m: rep, x)
+            return x
+        facts = []
+        for cond in g.ifs:
+            for t, pol in pat.conjuncts(cond):
+                q = pat.cmp_parts(ctx, f, t, pol)
+                if q:
+                    facts.append((q[0], sub_t(q[1]), sub_t(q[2])))
+        return sub_t(pat.inline(ctx, f, e.elt)), facts
+    if not isinstance(g.target, ast.Name):
+        return None
     var = g.target.id
     facts = []
     for cond in g.ifs:
